@@ -478,6 +478,18 @@ class NP:
         idx = self.argsort(a)
         return a[idx]
 
+    def bincount(self, x, weights=None, minlength=0):
+        # documented semantics: out[n] = sum of weights[i] over i with x[i] == n
+        if weights is None or not _has_sym(weights):
+            return to_obj(np.bincount(np.asarray(x, dtype=np.int64), weights=None if weights is None else np.asarray(weights, dtype=float), minlength=minlength))
+        x = [int(v) for v in np.asarray(x).flat]
+        w = list(_as_obj(weights).flat)
+        out = np.zeros(max([minlength] + [v + 1 for v in x]), dtype=object)
+        out[:] = 0.0
+        for i, n in enumerate(x):
+            out[n] = out[n] + w[i]
+        return out
+
     def argsort(self, a, axis=-1, kind=None, **kw):
         a = _as_obj(a)
         if a.dtype != object or a.ndim != 1: return np.argsort(a, axis=axis, kind=kind, **kw)
@@ -535,6 +547,12 @@ class DMat:
             data, (i, j) = arg
             i = [int(x) for x in i]; j = [int(x) for x in j]
             if shape is None: shape = (max(i) + 1, max(j) + 1)
+            # scipy.sparse's coo check, same messages
+            for ax, idx in enumerate((i, j)):
+                if len(idx) and max(idx) >= shape[ax]:
+                    raise ValueError(f"axis {ax} index {max(idx)} exceeds matrix dimension {shape[ax]}")
+                if len(idx) and min(idx) < 0:
+                    raise ValueError(f"negative axis {ax} index: {min(idx)}")
             self.A = np.empty(shape, dtype=object); self.A[...] = 0.0
             data = list(np.broadcast_to(_as_obj(data), (len(i),))) if not isinstance(data, (list, np.ndarray)) or np.ndim(data) == 0 else list(data)
             for d, a, b in zip(data, i, j):
@@ -674,6 +692,34 @@ def _sp_identity(n, **kw):
     A = np.empty((n, n), dtype=object); A[...] = 0.0
     for i in range(n): A[i, i] = 1.0
     return DMat(A)
+
+
+def sym_inv(N):
+    """inverse of a small matrix with symbolic cells (adjugate / determinant by cofactor expansion; exact in the fraction field)"""
+    A = _as_obj(N.toarray() if hasattr(N, "toarray") else N)
+    n = A.shape[0]
+
+    def det(M):
+        if len(M) == 1:
+            return M[0][0]
+        tot = 0.0
+        for j in range(len(M)):
+            minor = [row[:j] + row[j + 1:] for row in M[1:]]
+            term = M[0][j] * det(minor)
+            tot = tot + term if j % 2 == 0 else tot - term
+        return tot
+    rows = [list(A[i]) for i in range(n)]
+    d = det(rows)
+    out = np.zeros((n, n), dtype=object)
+    for i in range(n):
+        for j in range(n):
+            if n == 1:
+                c = 1.0
+            else:
+                minor = [r[:i] + r[i + 1:] for k, r in enumerate(rows) if k != j]
+                c = det(minor)
+            out[i, j] = (c if (i + j) % 2 == 0 else -c) / d
+    return out
 
 
 SPARSE_NAMES = {"csr_matrix": DMat, "csc_matrix": DMat, "coo_matrix": DMat, "sparse": DMat, "csr_array": DMat,
